@@ -4,6 +4,7 @@ import (
 	"fmt"
 	"go/types"
 	"sort"
+	"strconv"
 	"strings"
 
 	"gcacheck/internal/an"
@@ -243,3 +244,217 @@ func pluralS(n int) string {
 }
 
 var _ = fmt.Sprintf
+
+// signingCoverage checks that the signing-bytes builder of a struct type
+// writes every field of the struct except the signature field(s) at its full
+// width (a necessary condition of "the signature covers exactly these
+// fields"): a field that is missing or narrowed can be altered without
+// invalidating the signature. It is a coverage rule, not a layout rule:
+// order, offsets and prefix are free (C15 decides those).
+func signingCoverage(c *an.Ctx, rule, short, typ string, exempt ...string) {
+	p := c.P
+	n := p.Named(short, typ)
+	sb := p.Method(short, typ, "SigningBytes")
+	if n == nil || sb == nil {
+		c.Undecided(rule, nil, 0, "signing-coverage:"+typ, typ+".SigningBytes not found", "anchor missing")
+		return
+	}
+	st, ok := n.Underlying().(*types.Struct)
+	if !ok {
+		return
+	}
+	c.Scope(sb)
+	// events of the builder and of the repo functions it delegates to (Serialize)
+	evs := p.CodecEvents(sb)
+	for _, b := range sb.Blocks {
+		for _, in := range b.Instrs {
+			if call, ok := in.(*ssa.Call); ok {
+				if sc := call.Call.StaticCallee(); sc != nil && an.IsRepoFunc(sc) && sc != sb {
+					evs = append(evs, p.CodecEvents(sc)...)
+				}
+			}
+		}
+	}
+	isExempt := func(f string) bool {
+		for _, e := range exempt {
+			if e == f {
+				return true
+			}
+		}
+		return false
+	}
+	cnt := 0
+	var cover func(st *types.Struct, owner string, exemptTop bool)
+	cover = func(st *types.Struct, owner string, exemptTop bool) {
+		for i := 0; i < st.NumFields(); i++ {
+			f := st.Field(i)
+			if exemptTop && isExempt(f.Name()) {
+				continue
+			}
+			// a slice or array of repository structs: every field of the element must be covered
+			var elem types.Type
+			switch u := f.Type().Underlying().(type) {
+			case *types.Slice:
+				elem = u.Elem()
+			case *types.Array:
+				elem = u.Elem()
+			}
+			if elem != nil {
+				if est, isSt := elem.Underlying().(*types.Struct); isSt {
+					if en, isN := elem.(*types.Named); isN {
+						// delegated to the element's own Serialize: covered there (the element type has its own coverage rule)
+						deleg := false
+						for _, e := range evs {
+							if e.Op == "W" && e.Field == "Serialize("+f.Name()+")" {
+								deleg = true
+							}
+						}
+						if deleg {
+							cnt++
+							ser := p.Method(en.Obj().Pkg().Name(), en.Obj().Name(), "Serialize")
+							okAll := ser != nil
+							missing := []string{}
+							if ser != nil {
+								sevs := p.CodecEvents(ser)
+								for j := 0; j < est.NumFields(); j++ {
+									found := false
+									for _, e := range sevs {
+										if e.Op == "W" && (e.Field == est.Field(j).Name() || coversBool(p, e, est.Field(j))) {
+											found = true
+										}
+									}
+									if !found {
+										okAll = false
+										missing = append(missing, est.Field(j).Name())
+									}
+								}
+							}
+							c.Check(okAll, rule, sb, sb.Pos(), an.KeyOf(sb, "signed-field:"+owner+f.Name()), fmt.Sprintf("%s.SigningBytes covers every element of %s through the element's Serialize, which writes every field of the element", typ, f.Name()), "fields not written by the element serializer: "+strings.Join(missing, ","))
+							continue
+						}
+					}
+					cover(est, owner+f.Name()+".", false)
+					// the number of elements must be covered too for a slice
+					if _, isSl := f.Type().Underlying().(*types.Slice); isSl {
+						okLen := false
+						for _, e := range evs {
+							if e.Op == "W" && e.Field == "len("+f.Name()+")" && e.Width > 0 {
+								okLen = true
+							}
+						}
+						cnt++
+						c.Check(okLen, rule, sb, sb.Pos(), an.KeyOf(sb, "signed-field:len("+owner+f.Name()+")"), fmt.Sprintf("%s.SigningBytes covers the number of elements of %s", typ, f.Name()), "length write")
+					}
+					continue
+				}
+			}
+			want := fixedSize(f.Type())
+			got := []string{}
+			ok := false
+			for _, e := range evs {
+				if e.Op != "W" {
+					continue
+				}
+				if coversBool(p, e, f) {
+					ok = true
+					got = append(got, e.Sig()+"(under a test of "+f.Name()+")")
+					continue
+				}
+				if e.Field == f.Name() || e.Field == "len("+f.Name()+")" {
+					got = append(got, e.Sig())
+					if e.Field == f.Name() && (want < 0 || e.Width == want || (e.Width > 0 && want%e.Width == 0 && want > 8)) {
+						ok = true
+					}
+				}
+			}
+			cnt++
+			c.Check(ok, rule, sb, sb.Pos(), an.KeyOf(sb, "signed-field:"+owner+f.Name()), fmt.Sprintf("%s.SigningBytes covers field %s%s at its full width (%s): the field cannot be altered under a valid signature", typ, owner, f.Name(), sizeText(want)), "writes involving the field: "+strings.Join(got, " "))
+		}
+	}
+	cover(st, "", true)
+	// a builder of the form Serialize()[:len-K]: K must be exactly the size of
+	// the exempt (signature) fields and those must be the last thing serialized
+	fi := p.Info(sb)
+	for _, b := range sb.Blocks {
+		for _, in := range b.Instrs {
+			sl, isSl := in.(*ssa.Slice)
+			if !isSl || sl.High == nil {
+				continue
+			}
+			ht := fi.Term(sl.High)
+			if ht.K != an.KBin || ht.S != "-" || ht.A[0].K != an.KLen || ht.A[1].K != an.KConst {
+				continue
+			}
+			kv, okc := ht.A[1].IsConst()
+			if !okc {
+				continue
+			}
+			k, _ := strconv.Atoi(kv)
+			want := 0
+			for i := 0; i < st.NumFields(); i++ {
+				if isExempt(st.Field(i).Name()) {
+					want += fixedSize(st.Field(i).Type())
+				}
+			}
+			last := ""
+			if ser := p.Method(short, typ, "Serialize"); ser != nil {
+				for _, e := range p.CodecEvents(ser) {
+					if e.Op == "W" {
+						last = e.Field
+					}
+				}
+			}
+			cnt++
+			c.Check(int(k) == want && isExempt(last), rule, sb, sl.Pos(), an.KeyOf(sb, "signed-span"), fmt.Sprintf("%s.SigningBytes cuts exactly the trailing signature (%d bytes) off the serialization: every other serialized byte is signed", typ, want), fmt.Sprintf("cuts %d bytes; last serialized field %s", k, last))
+		}
+	}
+	c.Count(rule, cnt)
+}
+
+// coversBool: the write e stores a constant under a branch on the boolean field f.
+func coversBool(p *an.Program, e an.CodecEvent, f *types.Var) bool {
+	b, isB := f.Type().Underlying().(*types.Basic)
+	if !isB || b.Kind() != types.Bool || e.Instr == nil || e.Width != 1 {
+		return false
+	}
+	fi := p.Info(e.Instr.Parent())
+	for _, fct := range fi.FactsAt(e.Instr) {
+		k := fct.T.Key()
+		if strings.Contains(k, "."+f.Name()) || strings.Contains(k, "fld:"+f.Name()+"(") {
+			return true
+		}
+	}
+	return false
+}
+
+func sizeText(n int) string {
+	if n < 0 {
+		return "variable length"
+	}
+	return fmt.Sprintf("%d bytes", n)
+}
+
+// fixedSize is the encoded size of a fixed-width type, -1 for variable ones.
+func fixedSize(t types.Type) int {
+	switch u := t.Underlying().(type) {
+	case *types.Basic:
+		switch u.Kind() {
+		case types.Bool, types.Uint8, types.Int8:
+			return 1
+		case types.Uint16, types.Int16:
+			return 2
+		case types.Uint32, types.Int32, types.Float32:
+			return 4
+		case types.Uint64, types.Int64, types.Float64:
+			return 8
+		}
+		return -1
+	case *types.Array:
+		e := fixedSize(u.Elem())
+		if e < 0 {
+			return -1
+		}
+		return e * int(u.Len())
+	}
+	return -1
+}
